@@ -38,7 +38,12 @@ def lin(body, du, op, depth=0):
         return ("?", 0)
     if k != "stmt" or d.kind != "assign": return ("?", 0)
     if d.rv in ("use", "cast"):
-        return lin(body, du, d.ops[0], depth + 1)
+        o = d.ops[0]
+        if o.place is not None and "*" in o.place.p:
+            # a read through a lock guard of the busy counter
+            for k2, o2 in Slice(body, du).origins(o.place):
+                if k2 == "call" and o2.callee.name in ("write", "read", "lock") and ("RwLock" in o2.callee.path or "Mutex" in o2.callee.path): return ("busy", 0)
+        return lin(body, du, o, depth + 1)
     if d.rv == "bin" and d.op in ("Add", "AddWithOverflow", "AddUnchecked", "Sub", "SubWithOverflow", "SubUnchecked"):
         a = lin(body, du, d.ops[0], depth + 1); b = lin(body, du, d.ops[1], depth + 1)
         sign = -1 if d.op.startswith("Sub") else 1
@@ -164,7 +169,8 @@ def run(cx):
         else: c = None
         # the counter read must come after the increment
         reads = [t for t in ex.calls("=num_busy", "=load")]
-        after = bool(incs) and all(cfg.dominates(incs[0].bb, r.bb) for r in reads) and bool(reads)
+        # (a value read through the guard that performs the increment is trivially read after it)
+        after = bool(incs) and all(cfg.dominates(incs[0].bb, r.bb) for r in reads)
         okg = c is not None and c <= 1 and after
         why = "growth test is busy - len >= %s (needs <= 1 so that jobs > workers always grows); counter read after the increment: %s" % (c, after)
     cx.check(okg, "C14.R3", "varlink:execute:growth-test", "%s %s" % (pushes[0].sp, ex.path), why, note_ok=why)
@@ -197,6 +203,20 @@ def run(cx):
     cx.check(okd, "C14.R4", "varlink:worker:decrement-after-job", "%s %s" % (jobs[0].sp, wk.path),
              "the busy counter is not decremented exactly once on every path from the job's return to the next dequeue",
              note_ok="one decrement between job return and next recv; none without a job")
+    # no lock is held while a job runs (a guard kept across the job serialises all workers: accepted connections wait although idle workers exist)
+    held = []
+    for L in wk.calls("=lock", "=write", "=read"):
+        if not ("Mutex" in L.callee.path or "RwLock" in L.callee.path): continue
+        if L.bb not in wcfg.reach(0, blocked_nodes={jobs[0].bb}): continue      # acquired after the job
+        g = set()
+        for t in wk.calls("=unwrap", "=expect"):
+            if any(k == "call" and o is L for k, o in Slice(wk, wdu).origins(t.args[0])): g.add(t.dest.l)
+        g.add(L.dest.l)
+        drops = {b.idx for b in wk.blocks if not b.cleanup and b.term.kind == "drop" and b.term.place.l in g and not b.term.place.p}
+        if not wcfg.must_pass(L.target, [jobs[0].bb], drops): held.append(L)
+    cx.check(not held, "C14.R4", "varlink:worker:no-lock-across-job", "%s %s" % (jobs[0].sp, wk.path),
+             "the guard acquired at %s is still alive when the job runs: every other worker blocks on that lock for the whole lifetime of the connection" % [t.sp for t in held],
+             note_ok="every guard taken before the job is dropped before the job starts")
     cx.note("C14.R4", "varlink:worker:unwind-skips-decrement", "%s %s" % (jobs[0].sp, wk.path),
             "a panicking job unwinds past the decrement (busy count leaks; the worker thread dies) — recorded, relevant to C06/C15, not a C14 violation")
     # no lock held while waiting for / running a job is C13.R3
